@@ -7,7 +7,7 @@ import sys
 import tempfile
 from fractions import Fraction
 
-from core import Check, run_check
+from core import Check, run_check, watchdog
 import gen
 
 
@@ -228,7 +228,8 @@ def c19(ck, tmp):
                 gen.write_text(p, "".join(l + "\n" for l in v))
             o = os.path.join(tmp, "s.out")
             try:
-                run_stat(p, cigar_stat=cigar, output=o)
+                with watchdog(60):
+                    run_stat(p, cigar_stat=cigar, output=o)
                 reports.append(parse_report(open(o).read()))
             except BaseException as e:  # noqa
                 reports.append({"crash": type(e).__name__})
@@ -310,7 +311,8 @@ def c20(ck, tmp):
         gen.write_text(tp, "".join(l + "\n" for l in tsv))
         out = os.path.join(tmp, "p.out")
         try:
-            add_phase_info(gaf, tp, out)
+            with watchdog(60):
+                add_phase_info(gaf, tp, out)
             impl = open(out).read().split("\n")
         except BaseException as e:  # noqa
             impl = None
